@@ -188,3 +188,13 @@ def run(cx):
                 d.get('klen') == '$klen' and d.get('rhs_pk', '').endswith('$rhs_pk)') or d.get('rhs_pk') == '$rhs_pk'
             ok = bool(ok) and d.get('sk') in ('$sk', 'clone($sk)')
         cx.add('F-EX-NEW', 'Exchange::new', ok, 'za = Z(id, own key), rhs_za = Z(peer id, peer key), peer key and own private key stored: %s' % {k: FR.short(v, 60) for k, v in d.items()}, fnew.loc())
+
+
+_run_za = run
+
+
+def run(cx):
+    from .C03 import check_za
+    _run_za(cx)
+    # Z_A and Z_B enter the KDF and both confirmation hashes: ZA = SM3(ENTL || ID || a || b || G || P)
+    check_za(cx)
